@@ -6,7 +6,7 @@
 enum Kind {
     K_DISCOVER = 1,   // a: station, tos, gen, xid, bridged, nlisted, own_pos(-1 absent), addressing(0 broadcast, 1 unicast, 2 real destination own)
     K_RESET = 2,      // a: station, tos, rdst_bcast
-    K_EMIT = 3,       // a: station(-1=active), seq, declared(-1=actual) ; blob: 14-byte descriptors
+    K_EMIT = 3,       // a: station(-1=active), seq, declared(-1=actual), path(-1 as the opener, 0 direct, 1 bridged) ; blob: 14-byte descriptors
     K_PROBE = 4,      // a: esrc_id, rsrc_id, is_probe, target(0 own,1 other,2 edst own/rdst other,3 edst other/rdst own)
     K_QUERY = 5,      // a: station(-1=active), seq
     K_QLT = 6,        // a: station(-1=active), seq, type, offset, tos
@@ -187,7 +187,8 @@ static inline Built build_frame(const HCfg &h, const Op &op, const Shadow &sh) {
             b.is_frame = true;
             break;
         case K_EMIT: {
-            sender(op.arg(0), op.arg(0) < 0 ? sh.bridged : false, esrc, rsrc);
+            // a[3]: the path this Emit arrives on: -1 (default) as the session opener did, 0 directly, 1 through a bridge
+            sender(op.arg(0), op.arg(3, -1) >= 0 ? op.arg(3) != 0 : (op.arg(0) < 0 ? sh.bridged : false), esrc, rsrc);
             std::vector<EmitDesc> d;
             size_t cap = (h.mtu - 34) / 14;
             for (size_t i = 0; i + 14 <= op.blob.size() && d.size() < cap; i += 14) {
@@ -209,7 +210,9 @@ static inline Built build_frame(const HCfg &h, const Op &op, const Shadow &sh) {
                     case 0xFFFFF1: return ZEROMAC;
                     case 0xFFFFF2: return BCAST;
                     case 0xFFFFF3: return h.st_real(0);
-                    default: return mac_from_u64(base + (uint64_t)(id & 0xFFFFFF));
+                    default:
+                        if ((id & 0xFFFF00) == 0xFFFE00) return mac_from_u64((base + (uint64_t)(id & 0xFF)) ^ 0xFFFF00000000ULL);   // the twin of identity (id & 0xFF): same last four octets, other first two
+                        return mac_from_u64(base + (uint64_t)(id & 0xFFFFFF));
                 }
             };
             Mac e = special(op.arg(0), 0x0400CC000000ULL);
@@ -223,7 +226,7 @@ static inline Built build_frame(const HCfg &h, const Op &op, const Shadow &sh) {
             break;
         }
         case K_QUERY:
-            sender(op.arg(0), op.arg(0) < 0 ? sh.bridged : false, esrc, rsrc);
+            sender(op.arg(0), op.arg(2, -1) >= 0 ? op.arg(2) != 0 : (op.arg(0) < 0 ? sh.bridged : false), esrc, rsrc);   // a[2]: path override as for K_EMIT
             b.frame = mk_simple(own, esrc, 0, OP_QUERY, own, rsrc, (uint16_t)op.arg(1));
             b.is_frame = true;
             break;
@@ -336,15 +339,16 @@ inline rc::Gen<Op> op_gen(const HistWeights &w) {
     if (w.reset) alts.push_back({(size_t)w.reset, rc::gen::exec([=] {
         Op o; o.kind = K_RESET; o.a = {*st(), *tos_gen(w.odd_tos), *pick({0, 1})}; return o; })});
     if (w.emit) alts.push_back({(size_t)w.emit, rc::gen::exec([=] {
-        Op o; o.kind = K_EMIT; o.a = {*cmd_st(), *seq0_gen(), -1}; o.blob = *emit_descs(w.max_emit); return o; })});
+        Op o; o.kind = K_EMIT; o.a = {*cmd_st(), *seq0_gen(), -1, *pick({-1, -1, -1, -1, 0, 1})}; o.blob = *emit_descs(w.max_emit); return o; })});
     if (w.probe) alts.push_back({(size_t)w.probe, rc::gen::exec([=] {
         Op o; o.kind = K_PROBE;
         o.a = {*range<int64_t>(0, w.probe_ids - 1), *range<int64_t>(0, 2), *pick({0, 1}), *pick({0, 0, 0, 0, 1, 2, 3})};
         if (*chance(6)) o.a[1] = *pick({0xFFFFF0, 0xFFFFF0, 0xFFFFF1, 0xFFFFF2, 0xFFFFF3});   // a probe that claims the responder itself, nobody, everybody or the mapper as its origin
         else if (*chance(3)) o.a[0] = *pick({0xFFFFF0, 0xFFFFF1, 0xFFFFF3});
+        else if (*chance(5)) { if (*chance(50)) o.a[0] = 0xFFFE00 + o.a[0] % 256; else o.a[1] = 0xFFFE00 + o.a[1] % 256; }   // an address that differs from an ordinary one in its first two octets only
         return o; })});
     if (w.query) alts.push_back({(size_t)w.query, rc::gen::exec([=] {
-        Op o; o.kind = K_QUERY; o.a = {*cmd_st(), *seq0_gen()}; return o; })});
+        Op o; o.kind = K_QUERY; o.a = {*cmd_st(), *seq0_gen(), *pick({-1, -1, -1, -1, 0, 1})}; return o; })});
     if (w.qlt) alts.push_back({(size_t)w.qlt, rc::gen::exec([=] {
         Op o; o.kind = K_QLT;
         o.a = {*cmd_st(), *bnd({0, 1, 0xFFFF}, 0, 0xFFFF, 1, 2), *pick({0x0E, 0x0E, 0x11, 0x13, 0x12, 0x00, 0xFF}),
